@@ -15,8 +15,11 @@ import time
 
 ROOT = os.path.dirname(os.path.dirname(os.path.abspath(__file__)))
 REPO = os.environ.get("VERIF_REPO", "/repo")
-COQ = os.path.join(ROOT, "coq")
-BUILD = os.path.join(ROOT, "build")
+# the three directories below can be redirected so that a trial run against a scratch copy of /repo
+# (tools/run_seeded.py) does not disturb the registered checks' build state, evidence or replays
+COQ = os.environ.get("VERIF_COQ", os.path.join(ROOT, "coq"))
+BUILD = os.environ.get("VERIF_BUILD", os.path.join(ROOT, "build"))
+OUT = os.environ.get("VERIF_OUT", ROOT)
 PY = "/venv/bin/python"
 COQ_TIMEOUT = int(os.environ.get("VERIF_COQ_TIMEOUT", "900"))
 
@@ -530,8 +533,8 @@ class Ctx:
 
     # ---- verdicts
     def replay_path(self, tag):
-        os.makedirs(os.path.join(ROOT, "replays"), exist_ok=True)
-        return os.path.join(ROOT, "replays", "%s_%s_%s.json" % (self.pid, tag, self.seed))
+        os.makedirs(os.path.join(OUT, "replays"), exist_ok=True)
+        return os.path.join(OUT, "replays", "%s_%s_%s.json" % (self.pid, tag, self.seed))
 
     def violation(self, tag, replay, no_input=False):
         path = self.replay_path(tag)
@@ -578,8 +581,8 @@ class Ctx:
         ev = {"property_id": self.pid, "tier": self.tier, "seed": self.seed, "level": self.level,
               "coverage": cov, "assumptions": self.extra_assumptions + list(trusted_extra),
               "wall_s": round(time.time() - self.t0, 2), "violations": len(self.violations)}
-        os.makedirs(os.path.join(ROOT, "evidence"), exist_ok=True)
-        with open(os.path.join(ROOT, "evidence", "%s.json" % self.pid), "w") as f:
+        os.makedirs(os.path.join(OUT, "evidence"), exist_ok=True)
+        with open(os.path.join(OUT, "evidence", "%s.json" % self.pid), "w") as f:
             json.dump(ev, f, indent=1, default=str)
         for l in self.known_lines:
             print(l)
